@@ -86,7 +86,38 @@ def gen_history_trace(rng, swarm=None):
     return {"init": init, "limit": swarm["limit"], "steps": steps, "swarm": swarm}
 
 
-def check_invariant(out, world, model, i, st, sig_extra=None):
+def _accept_remembered_newlines(model, want, snap, prev_snap):
+    """A file without any line break has no newline convention: writing a
+    multi-line text to it may use LF or the convention an earlier read found.
+    If that is the only difference, let the model follow the file."""
+    from ..model import encode_text
+
+    if prev_snap is None or not model._undo:
+        return False
+    differing = [k for k in set(snap) | set(want) if snap.get(k) != want.get(k)]
+    if len(differing) != 1:
+        return False
+    pth = differing[0]
+    a, w = snap.get(pth), want.get(pth)
+    if not isinstance(a, bytes) or not isinstance(w, bytes):
+        return False
+    # the file (wherever it was before this step) had no line break
+    lbfree = [v for v in prev_snap.values() if isinstance(v, bytes) and b"\n" not in v and b"\r" not in v]
+    if not lbfree:
+        return False
+    for o in flat_ops(model._undo[-1]["ops"]):
+        if o[0] == "edit":
+            for alt in ("\r\n", "\r"):
+                try:
+                    if encode_text(o[2], alt) == a and encode_text(o[2], "\n") == w:
+                        o[3:] = [alt]
+                        return True
+                except (UnicodeError, LookupError):
+                    pass
+    return False
+
+
+def check_invariant(out, world, model, i, st, sig_extra=None, prev_snap=None):
     """real tree == replay(base, undo list); list shapes; limit."""
     sig = {"op": st["op"]}
     sig.update(sig_extra or {})
@@ -116,6 +147,9 @@ def check_invariant(out, world, model, i, st, sig_extra=None):
     # ignored resources ('*~', '*.pyc') are outside the history's protection:
     # e.g. undoing the creation of a folder removes unrecorded ignored files in it
     vis = lambda d: {k: v for k, v in d.items() if not is_ignored_path(k)}  # noqa: E731
+    if vis(snap) != vis(want) and _accept_remembered_newlines(model, vis(want), vis(snap), prev_snap):
+        out.stats["probe_linebreak_free_file_convention_kept"] += 1
+        want = model.current().files
     if vis(snap) != vis(want):
         ok = False
         out.violate("tree_mismatch", sig, {"step": i, "st": _brief(st), "tree_diff": kernel.diff_trees(vis(want), vis(snap))}, where=i)
@@ -173,6 +207,7 @@ class HistoryEngine(Engine):
         try:
             model = HistoryModel(kernel_tree(world), limit)
             sched = []
+            prev_snap = world.snapshot()
             prefix = [limit]
             for i, st in enumerate(trace["steps"]):
                 n_u, n_r = len(model.undo), len(model.redo)
@@ -245,7 +280,8 @@ class HistoryEngine(Engine):
                 if stop:
                     out.log.add(ev="step", i=i, op=st["op"], exc=sig.get("exc"), stopped=True)
                     break
-                ok, snap = check_invariant(out, world, model, i, st, {k: v for k, v in sig.items() if k != "op"})
+                ok, snap = check_invariant(out, world, model, i, st, {k: v for k, v in sig.items() if k != "op"}, prev_snap)
+                prev_snap = snap
                 th = kernel.tree_hash(snap)
                 out.log.add(ev="step", i=i, op=st["op"], exc=sig.get("exc"), tree=th,
                             hist=[[r["desc"] for r in model.undo], [r["desc"] for r in model.redo]])
